@@ -511,3 +511,7 @@ fn batch_process(
     }
     Ok(())
 }
+
+#[cfg(feature = "verif")]
+#[path = "../../verif/redb_hooks.rs"]
+pub(crate) mod verif_hooks;
